@@ -28,7 +28,7 @@ func (pass *DisjunctionInferMapping) Process(schemas []*ast.Schema) ([]*ast.Sche
 func (pass *DisjunctionInferMapping) processDisjunction(_ *Visitor, schema *ast.Schema, def ast.Type) (ast.Type, error) {
 	var err error
 
-	if !def.Disjunction.Branches.HasOnlyRefs() {
+	if len(def.Disjunction.Branches) == 0 || !def.Disjunction.Branches.HasOnlyRefs() {
 		return def, nil
 	}
 
@@ -157,6 +157,10 @@ func (pass *DisjunctionInferMapping) buildDiscriminatorMapping(schema *ast.Schem
 			return nil, fmt.Errorf("could not resolve reference '%s'", branch.AsRef().String())
 		}
 
+		if !referredType.IsStruct() {
+			return nil, fmt.Errorf("reference '%s' does not resolve to a struct", branch.AsRef().String())
+		}
+
 		structType := referredType.AsStruct()
 
 		field, found := structType.FieldByName(def.Discriminator)
@@ -171,14 +175,22 @@ func (pass *DisjunctionInferMapping) buildDiscriminatorMapping(schema *ast.Schem
 
 		typeName := branch.AsRef().ReferredType
 
+		var discriminatorValue any
 		switch field.Type.Kind {
 		case ast.KindScalar:
-			mapping[field.Type.AsScalar().Value.(string)] = typeName
+			discriminatorValue = field.Type.AsScalar().Value
 		case ast.KindConstantRef:
-			mapping[field.Type.AsConstantRef().ReferenceValue.(string)] = typeName
+			discriminatorValue = field.Type.AsConstantRef().ReferenceValue
 		default:
 			return nil, fmt.Errorf("discriminator field '%s' is not concrete", field.Name)
 		}
+
+		discriminatorString, ok := discriminatorValue.(string)
+		if !ok {
+			return nil, fmt.Errorf("discriminator field '%s' is not a string", field.Name)
+		}
+
+		mapping[discriminatorString] = typeName
 	}
 
 	return mapping, nil
